@@ -130,6 +130,8 @@ class Tracker:
 
 
 NS = 6
+# operations whose results must never share storage with another live object
+UNSHARED_OPS = {"newvec", "copy", "slice", "arith", "tabfrom", "stack", "setattr", "burst"}
 
 
 def choose(rng, w):
@@ -156,7 +158,9 @@ def choose(rng, w):
         return {"op": op, "k": rng.randrange(3), "n": rng.choice([0, 1, 2, 3])}
     if op == "burst":
         return {"op": op, "count": rng.randint(2, 12), "n": rng.choice([1, 2, 2, 3])}
-    if op in ("shareof", "copy", "slice", "arith"):
+    if op == "slice":
+        return {"op": op, "dst": dst, "src": rng.choice(vecs), "key": rng.choice([[None, None], [0, None], [None, 2], [0, 2], [1, None], [0, 1], [-3, None]])}
+    if op in ("shareof", "copy", "arith"):
         return {"op": op, "dst": dst, "src": rng.choice(vecs)}
     if op == "write":
         return {"op": op, "r": rng.choice(vecs), "promote": rng.random() < 0.2, "form": rng.choice(["int", "int", "slice", "mask"])}
@@ -218,7 +222,9 @@ def run_step(slots, pool, st):
     elif op == "copy":
         slots[st["dst"]] = slots[st["src"]].copy()
     elif op == "slice":
-        slots[st["dst"]] = slots[st["src"]][0:2]
+        src = slots[st["src"]]
+        slots[st["dst"]] = src[st.get("key", [0, 2])[0]:st.get("key", [0, 2])[1]]
+        del src
     elif op == "arith":
         slots[st["dst"]] = slots[st["src"]] + 1
     elif op == "tabfrom":
@@ -351,6 +357,8 @@ def run_history(spec):
                 cur, live = tr.snapshot()
                 del live
                 evs = tr.diff_events(cur)
+                if st["op"] in UNSHARED_OPS:
+                    evs += [{"e": "fresh", "o": e["o"], "desc": st} for e in evs if e["e"] == "create"]
                 for e in evs:
                     if e["e"] == "drop":
                         freed.add(tr.prev[e["o"]][0]); churn = True
